@@ -21,7 +21,11 @@
                   [3; f; arg] field_f.write_part(arg)   arg [0; k] a_k | [1; k; a; b] a_k[a:b] | [2; g; a; b] field_g.data[a:b]
                   [4; f; k; same] write_part(a_k, move_mem=True) | [5; f] complete | [6; f; i; v] data[i] = v | [7; f] clear
            answer [caller arrays; fields]; the spec column is -1 when the value semantics does not
-                  define the history (move_mem, out-of-range index): no claim *)
+                  define the history (move_mem, out-of-range index): no claim
+   case 5  several NAMED fields in several named dataframes of one file   [5; subcases]
+           every subcase is a case 1 or a case 2.  The model is name-agnostic: a file is a collection of independent
+           fields whatever they and their dataframes are called, so the answer is the list of the subcases' answers:
+           [models; specs]  (names never reach the model; the harness places the i-th answer under the i-th name) *)
 From Coq Require Import ZArith List Bool.
 From EV Require Import Res Arr Val IdxWriter IdxWriterSpec FieldWorld FieldWorldSpec.
 Import ListNotations.
@@ -209,7 +213,7 @@ Definition entry_alias (backings:list bool) (ops:list (aop (list Z))) : val :=
   VL [of_res world_val (aw_history [] backings ops);
       match v_run (v_fresh backings) ops with Some v => world_val v | None => VZ (-1) end].
 
-Definition entry_C01 (v:val) : val :=
+Definition entry_C01_one (v:val) : val :=
   match v with
   | VL [VZ 1; VZ h5; VZ cs; VL ops; VL extra] =>
     match all_some (map as_op ops) with
@@ -253,4 +257,18 @@ Definition entry_C01 (v:val) : val :=
     | _, _ => vbad
     end
   | _ => vbad
+  end.
+
+(* ---- case 5: a batch of independent fields (names stay in the harness) ------------------------------ *)
+Definition as_ms (v:val) : option (val * val) :=
+  match v with VL [m; s] => Some (m, s) | _ => None end.
+
+Definition entry_C01 (v:val) : val :=
+  match v with
+  | VL [VZ 5; VL subs] =>
+    match all_some (map (fun c => as_ms (entry_C01_one c)) subs) with
+    | Some rs => VL [VL (map fst rs); VL (map snd rs)]
+    | None => vbad
+    end
+  | _ => entry_C01_one v
   end.
